@@ -382,3 +382,27 @@ package decoder
 //@   assert call(Append,0): len(readBytes) == count && common.availBS(bits) == old(common.availBS(bits)) - 8 * count && 8 * count <= old(common.availBS(bits))
 //@   loop 0: invariant 0 <= i && i <= count && len(readBytes) == count && common.wfBS(bits) && bits.bytes == old(bits.bytes) && common.availBS(bits) == old(common.availBS(bits)) - 8 * i && 8 * count <= old(common.availBS(bits))
 //@   loop 0: decreases count - i
+
+// ---------------------------------------------------------------- modes (ISO/IEC 18004 table 2 and table 3), C01
+// mode indicators and character-count widths per version class (1-9, 10-26, 27-40) as in the standard
+//@ lemma modeTable()
+//@   property C01 C07
+//@   globals Mode_NUMERIC, Mode_ALPHANUMERIC, Mode_BYTE, Mode_KANJI, Mode_ECI, Mode_TERMINATOR
+//@   ensures Mode_NUMERIC != nil && Mode_NUMERIC.bits == 1 && len(Mode_NUMERIC.characterCountBitsForVersions) == 3 && Mode_NUMERIC.characterCountBitsForVersions[0] == 10 && Mode_NUMERIC.characterCountBitsForVersions[1] == 12 && Mode_NUMERIC.characterCountBitsForVersions[2] == 14
+//@   ensures Mode_ALPHANUMERIC != nil && Mode_ALPHANUMERIC.bits == 2 && len(Mode_ALPHANUMERIC.characterCountBitsForVersions) == 3 && Mode_ALPHANUMERIC.characterCountBitsForVersions[0] == 9 && Mode_ALPHANUMERIC.characterCountBitsForVersions[1] == 11 && Mode_ALPHANUMERIC.characterCountBitsForVersions[2] == 13
+//@   ensures Mode_BYTE != nil && Mode_BYTE.bits == 4 && len(Mode_BYTE.characterCountBitsForVersions) == 3 && Mode_BYTE.characterCountBitsForVersions[0] == 8 && Mode_BYTE.characterCountBitsForVersions[1] == 16 && Mode_BYTE.characterCountBitsForVersions[2] == 16
+//@   ensures Mode_KANJI != nil && Mode_KANJI.bits == 8 && len(Mode_KANJI.characterCountBitsForVersions) == 3 && Mode_KANJI.characterCountBitsForVersions[0] == 8 && Mode_KANJI.characterCountBitsForVersions[1] == 10 && Mode_KANJI.characterCountBitsForVersions[2] == 12
+//@   ensures Mode_ECI != nil && Mode_ECI.bits == 7 && Mode_TERMINATOR != nil && Mode_TERMINATOR.bits == 0
+// the width class is chosen by the version number: 1..9, 10..26, 27..40
+//@ func (this *Mode) GetCharacterCountBits(version *Version) (r int)
+//@   property C01 C06
+//@   requires version != nil && len(this.characterCountBitsForVersions) == 3
+//@   ensures r == this.characterCountBitsForVersions[version.versionNumber <= 9 ? 0 : (version.versionNumber <= 26 ? 1 : 2)]
+//@   modifies nothing
+//@ func ModeForBits(bits int) (r *Mode, e error)
+//@   property C01 C06
+//@   globals Mode_NUMERIC, Mode_ALPHANUMERIC, Mode_BYTE, Mode_KANJI, Mode_ECI, Mode_TERMINATOR
+//@   ensures (e != nil) == !(bits == 0 || bits == 1 || bits == 2 || bits == 3 || bits == 4 || bits == 5 || bits == 7 || bits == 8 || bits == 9 || bits == 13)
+//@   ensures e == nil && (bits == 0 || bits == 1 || bits == 2 || bits == 4 || bits == 7 || bits == 8) ==> r != nil && r.bits == bits
+//@   ensures e != nil ==> r == nil
+//@   modifies nothing
